@@ -220,6 +220,10 @@ def grid_for(name, meta, rng):
                  "12345_", "GGGGGG", "ffffff", "FFFFFFF", "12345", "１２３４５６"]
     if name in ("ST_TextSpacingPoint", "ST_LineWidth", "ST_TextFontSize"):
         vals += [126, 127, 128, 253, 254, 12700, 12699, 12701, 20116800, 20116801]
+        # exactly representable lengths (whole centipoints) all over the range, and their neighbours: a conversion that goes
+        # through a float product instead of the integer division loses one unit on some of them only
+        for k in [29, 230, 410, 820, 1020, 1640] + [rng.randrange(0, 158401) for _ in range(150)]:
+            vals += [127 * k, 127 * k + 1, 127 * k - 1]
     out, seen = [], set()
     for v in vals:
         key = (type(v).__name__, repr(v))
@@ -696,6 +700,10 @@ def oracle_rows(ck, rows, meta, st_class, rng):
                     if r["st"] in ("ST_Angle", "ST_PositiveFixedAngle"):
                         a = a % 360
                         ok_rt = ok_rt or abs(a - b) <= q or abs(abs(a - b) - 360) <= q
+                    elif r["st"] == "ST_TextSpacingPoint":
+                        # whole centipoints, floor: a representable length reads back exactly (RT_TextSpacingPoint proves
+                        # 0 <= written - read < quantum for the unchanged conversion)
+                        ok_rt = ok_rt or 0 <= a - b < q
                     else:
                         ok_rt = ok_rt or abs(a - b) <= q
                 if not ok_rt:
